@@ -6,7 +6,7 @@
 //!      [4, ms]                                       sleep
 //!      [5, id, seq] data                             inject a forged ICMPv4 echo reply from 127.0.0.1
 //! out: [996] when raw sockets are unavailable, else one token group per op:
-//!      send -> [1, sent]; recv -> [2, got, type, code, has_req, id, seq] ip; sizes -> [3, waiters, deadlines];
+//!      send -> [1, sent (1) | dropped (0) | the sink failed, which ends the client's stream in datagram_pipe (2)]; recv -> [2, got, type, code, has_req, id, seq] ip; sizes -> [3, waiters, deadlines];
 //!      sleep -> [4]; inject -> [5, ok]
 use crate::util::*;
 use std::net::IpAddr;
@@ -77,7 +77,11 @@ pub fn run(toks: Vec<Tok>) -> Vec<Tok> {
                     let r = clients[op[1] as usize]
                         .send(peer, op[2] as u16, op[3] as u16, op[4] as u8, &data)
                         .await;
-                    out.push(vec![1, matches!(r, Ok(true)) as u128]);
+                    out.push(vec![1, match r {
+                        Ok(true) => 1,
+                        Ok(false) => 0,
+                        Err(_) => 2,
+                    }]);
                     i += 3;
                 }
                 2 => {
